@@ -257,6 +257,7 @@ def sensitivity(only=None, repo='/repo'):
             env = dict(os.environ)
             env['COPULAS_REPO'] = scratch
             env['COPSIM_MAX_REPORT'] = '1'
+            env['COPSIM_FIRST_ONLY'] = '1'
             cmd = [PY, os.path.join(ROOT, 'vcheck.py'), m['property'], '--tier', 'quick']
             if m.get('runs'):
                 cmd += ['--runs', str(m['runs'])]
